@@ -48,6 +48,7 @@ def plan(tier, seed):
         shards.append((name, r["classes"][0], "long", tier))
         if r["symmetric"]:
             shards.append((name, "P", "mixed", tier))
+        shards.append((name, "N", "negzero", tier))
     return shards
 
 
@@ -174,6 +175,43 @@ def run(shard, seed):
     name, cl, mode, tier = shard
     res = Result()
     fn = D.DISTANCES[name]
+    if mode == "negzero":
+        # -0.0 and +0.0 are the same number: a vector holding a negative zero must get the same
+        # (finite) distances as the vector holding a positive zero
+        vals = [-0.0, 0.5, 2.0]
+        for d in (1, 2):
+            import itertools
+            vs = list(itertools.product(vals, repeat=d))
+            for x in vs:
+                for y in vs:
+                    a, b = np.array(x, dtype=float), np.array(y, dtype=float)
+                    try:
+                        got = float(fn(a.copy(), b.copy()))
+                        want = float(fn(a + 0.0, b + 0.0))
+                    except Exception as ex:
+                        got, want = float("nan"), 0.0
+                    res.transitions += 2
+                    res.nontrivial += 1
+                    same = (got == want) or (got != got and want != want) or \
+                        abs(got - want) <= 1e-12 * max(1.0, abs(want))
+                    if not same:
+                        v = make_violation(name, cl, [x, y], "finite", 0, 1, None,
+                                           "with a negative zero among the components the value is %r, with a "
+                                           "positive zero it is %r" % (got, want))
+                        v["program"]["negzero"] = True
+                        v["fingerprint"] = "metric %s: negative zero treated differently" % name
+                        res.violations.append(v)
+                        break
+                if res.violations:
+                    break
+            if res.violations:
+                break
+        res.outcome((name, "negzero"))
+        res.sample({"metric": name, "mode": "negzero", "x": [-0.0, 0.5], "y": [2.0, -0.0]}, 1)
+        res.evaluations = res.transitions
+        res.states = res.transitions
+        res.traces = res.transitions
+        return res
     if mode == "mixed":
         # symmetry when one argument is an integer array and the other a float array
         ints = [(3, 1, 7, 2), (1, 5, 2, 2), (2, 2), (9,), (4, 1)]
@@ -253,6 +291,17 @@ def replay(case):
     import opfython.math.distance as D
     p = case["program"]
     name, cl, axiom = p["metric"], p["class"], p["axiom"]
+    if p.get("negzero"):
+        a, b = np.array(p["x"], dtype=float), np.array(p["y"], dtype=float)
+        got, want = float(D.DISTANCES[name](a.copy(), b.copy())), float(D.DISTANCES[name](a + 0.0, b + 0.0))
+        if not ((got == want) or (got != got and want != want) or abs(got - want) <= 1e-12 * max(1.0, abs(want))):
+            v = make_violation(name, cl, [p["x"], p["y"]], "finite", 0, 1, None,
+                               "with a negative zero among the components the value is %r, with a positive "
+                               "zero it is %r" % (got, want))
+            v["program"]["negzero"] = True
+            v["fingerprint"] = "metric %s: negative zero treated differently" % name
+            return v
+        return None
     if p.get("mixed"):
         a = np.array(p["x"], dtype=np.dtype(p["mixed"]))
         b = np.array(p["y"], dtype=float)
